@@ -4,6 +4,7 @@
 package thriftw
 
 import (
+	"fmt"
 	"testing"
 
 	erpc "github.com/henrylee2cn/erpc/v6"
@@ -21,8 +22,11 @@ import (
 func specThriftBinary() vt.ProtoSpec {
 	base := vt.GenRawLike(vt.MethodUTF8, vt.AnyText, nil)
 	return vt.ProtoSpec{
-		Name: "thrift-binary",
-		Fn:   thriftproto.NewBinaryProtoFunc,
+		Name:           "thrift-binary",
+		SizePrefixed:   true,
+		AnnounceExempt: thriftUnframed,
+		AllocKnownKey:  keyThriftAlloc,
+		Fn:             thriftproto.NewBinaryProtoFunc,
 		Gen: func(t *rapid.T, rec *vt.Rec) vt.Msg {
 			m := base(t, rec)
 			m.Mtype = rapid.SampledFrom([]byte{erpc.TypeCall, erpc.TypeReply, erpc.TypePush}).Draw(t, "mtype3")
@@ -49,8 +53,11 @@ func genTStruct(t *rapid.T) *vt.TStruct {
 // no pipe; metadata and status travel as headers.
 func specThriftStruct() vt.ProtoSpec {
 	return vt.ProtoSpec{
-		Name: "thrift-struct",
-		Fn:   thriftproto.NewStructProtoFunc,
+		Name:           "thrift-struct",
+		SizePrefixed:   true,
+		AnnounceExempt: thriftUnframed,
+		AllocKnownKey:  keyThriftAlloc,
+		Fn:             thriftproto.NewStructProtoFunc,
 		Gen: func(t *rapid.T, rec *vt.Rec) vt.Msg {
 			var m vt.Msg
 			m.Seq = vt.Seq(t, "seq")
@@ -93,3 +100,34 @@ func specThriftStruct() vt.ProtoSpec {
 
 func TestC05ThriftBinary(t *testing.T) { vt.RunSpec(t, specThriftBinary()) }
 func TestC05ThriftStruct(t *testing.T) { vt.RunSpec(t, specThriftStruct()) }
+
+// thriftUnframed: a 4-byte prefix that the thrift header transport takes for
+// the start of an unframed binary/compact message rather than a frame size.
+func thriftUnframed(prefix uint32) bool {
+	return prefix&0xffff0000 == 0x80010000 || byte(prefix>>24) == 0x82 && byte(prefix>>16)&0x1f == 1
+}
+
+func TestC06ThriftBinaryUnpack(t *testing.T) { vt.RunHostileProto(t, specThriftBinary()) }
+func TestC06ThriftStructUnpack(t *testing.T) { vt.RunHostileProto(t, specThriftStruct()) }
+
+const keyThriftAlloc = "C06:thrift:library-allocates-announced-sizes"
+
+// TestC06ThriftKnownProbes re-checks the listed known findings of the thrift protocols.
+func TestC06ThriftKnownProbes(t *testing.T) {
+	rec := vt.NewRec(t, "C06", "thrift/known-probes", "deterministic reproductions of listed known findings")
+	if !vt.IsKnown(keyThriftAlloc) {
+		return
+	}
+	vt.Init()
+	// a 40-byte header frame announcing 2^24 transforms
+	in := []byte{0, 0, 0, 36, 0x0f, 0xff, 0, 0, 0, 0, 0, 1, 0, 4, 0x00, 0x80, 0x80, 0x80, 0x08}
+	for len(in) < 40 {
+		in = append(in, 0)
+	}
+	_, _, _, alloc, _ := vt.UnpackMeasured(specThriftBinary(), in, 4096)
+	if alloc > vt.AllocBound(4096, len(in)) {
+		rec.KnownFinding(keyThriftAlloc, fmt.Sprintf("thrift header transport: a %d-byte frame announcing 2^24 transforms makes one Unpack allocate %d bytes under a 4096-byte read limit", len(in), alloc))
+	}
+}
+
+func TestC06ThriftTruncationSweep(t *testing.T) { vt.RunTruncationSweep(t, specThriftBinary()) }
